@@ -129,15 +129,25 @@ func vC09_stop() {
 			p[i].setState(suspendedState, true)
 		}
 	}
-	vC09_inv(tr, root, dw, &p, "before")
-
-	target := vChoose("target", 4)
-	vC09_nev, vC09_egTop, vT_sent = 0, 0, nil
-	for t := 0; t < 4; t++ {
-		if t == target {
-			vAssert(p[t].Shutdown(context.Background()) == nil, "Shutdown succeeds")
+	// an arbitrary additional watch relation between the four actors (on top of parent-watches-child)
+	var watches [4][4]bool
+	for w := 0; w < 4; w++ {
+		for t := 0; t < 4; t++ {
+			if w == t {
+				continue
+			}
+			watches[w][t] = par[t] == w
+			if par[t] != w && vNondetBool("watches") {
+				tr.addWatcher(p[t], p[w])
+				watches[w][t] = true
+			}
 		}
 	}
+	vC09_inv(tr, root, dw, &p, "before")
+
+	target := vCase("target") // which actor is stopped: case split (a symbolic target makes the executor run all four stops on a blurred tree)
+	vC09_nev, vC09_egTop, vT_sent = 0, 0, nil
+	vAssert(p[target].Shutdown(context.Background()) == nil, "Shutdown succeeds")
 	var inSub [4]bool
 	size := 0
 	for i := 0; i < 4; i++ {
@@ -216,11 +226,21 @@ func vC09_stop() {
 		if vT_sent[k].to == root {
 			nToRoot++
 		}
-		for i := 0; i < 4; i++ {
-			if vT_sent[k].to == p[i] {
-				vAssert(!inSub[i], "a parent that stops its child is not sent a Terminated for it")
-				vAssert(par[target] == i && !suspended[i] && vT_sent[k].from == p[target], "only the stopped actor's own parent is notified, if it is running")
-				vCover("parent-notified")
+	}
+	for w := 0; w < 4; w++ {
+		for t := 0; t < 4; t++ {
+			if w == t {
+				continue
+			}
+			got := vT_terminatedTo(p[w], p[t])
+			if inSub[t] && !inSub[w] && watches[w][t] && !suspended[w] {
+				vAssert(got == 1, "a running watcher outside the stopped subtree receives exactly one Terminated for each stopped actor it watches")
+				vCover("watcher-notified")
+			} else if inSub[t] && inSub[w] && watches[w][t] && !anc[t][w] {
+				// a watcher that is itself being stopped (not an ancestor of t): notified or not depending on which of the two stops first
+				vAssert(got <= 1, "a watcher inside the stopped subtree is notified at most once")
+			} else {
+				vAssert(got == 0, "nobody else is sent a Terminated: not the ancestors that are stopping the actor (a parent unwatches the child it stops), not suspended or non-watching actors")
 			}
 		}
 	}
